@@ -4,8 +4,15 @@ import Ibx.Model.WsListener
   T1 tie for C15: the close protocol the source has (facts re-read from pkg/rest/socketv1_controller.go,
   socketv2_controller.go and pkg/msghub/hub.go on every run) is the instance `Proto.fixed` for which
   Props/C15 proves never_blocks_hub, no_send_on_closed, close_unregisters, delivered_in_order_no_loss.
-  If Close() goes back to testing the data channel, if a send on `ml.c` loses its `select … default`, if
-  anything closes `ml.c`, or if Receive starts calling the hub, these obligations stop checking.
+  If Close() goes back to testing the data channel, if a send on the event queue loses its `select … default`, if
+  anything closes the event queue, or if Receive starts calling the hub, these obligations stop checking.
+
+  The facts are STRUCTURAL (harness/cmd/extract/hub.go, astutil.go): the listener type of a socket file is the one
+  that declares Receive and Delete; its hub field is the one of type *msghub.Hub, its event queue the channel field
+  the file sends on, its done channel the `chan struct{}` field the file closes, its once field the sync.Once; the
+  hub's operation queue is the Hub field of type `chan func(…)`.  Close / Receive / Delete / WSWriter / Start are
+  read together with every same-file function they transitively call.  Renaming the unexported types, fields,
+  helpers, constants and locals, extracting or inlining helpers, or rewording log / error text changes no fact.
 -/
 namespace Ibx.Tie.Hub
 open Ibx.Model.WsListener
@@ -41,6 +48,7 @@ theorem receive_never_calls_hub : Gen.Hub.receiveCallsHubV1 = some false ∧ Gen
 /-- queue capacities: the WsListener theorems hold for every capacity; the harness overflows exactly this one -/
 theorem chanCap_tie : Gen.Hub.chanCapV1 = some 100 ∧ Gen.Hub.chanCapV2 = some 100 := by decide
 
+/-- capacity given to the make() of the hub's operation queue (literal or constant, whatever it is called) -/
 theorem opChanLen_tie : Gen.Hub.opChanLen = some 100 := by decide
 
 /-- the hub's processing loop does not close its queue on shutdown (late RemoveListener / Dispatch callers
